@@ -113,7 +113,7 @@ def tier_plan(prop, tier):
         "C08": [("plain", 8000 if q else 500000)],
         "C09": [("plain", 8000 if q else 500000)],
         "C10": [("plain", 6000 if q else 300000)],
-        "C13": [("asan", 1600 if q else 120000)],
+        "C13": [("asan", 1200 if q else 120000)],
         "C14": [("plain", 3000 if q else 150000)],
         "C15": [("plain", 300 if q else 4000)],
         "C16": [("plain", 200 if q else 6000), ("asan", 60 if q else 2500)],
@@ -337,6 +337,7 @@ def check(prop, tier):
     per_variant = {}
     all_crashes = []
     harness_problem = []
+    slow_cases = []
 
     def collect(s, variant):
         if s.startswith("RES "):
@@ -425,6 +426,10 @@ def check(prop, tier):
         if idx is None:
             harness_problem.append(f"worker died outside a case (rc={rc}): {tail[-300:]}")
             continue
+        if rc == "watchdog" and prop != "C16":
+            # no property except C16 speaks about time: a slow case is skipped and counted, never a violation
+            slow_cases.append(idx)
+            continue
         # cheap pre-classification to avoid gating the same crash site many times
         pre = None
         m = re.search(r"CRASH sig=(\d+) fn=(\S+)", tail)
@@ -487,6 +492,7 @@ def check(prop, tier):
         "known_findings_hit": known_hit,
         "notes": notes[:20],
         "harness_problems": harness_problem,
+        "slow_cases_skipped": slow_cases,
         "budget_ratios_on_valid_loads": ratios,
     }
     for k, v in extra.items():
